@@ -6,7 +6,7 @@ Everything is a deterministic function of the numpy Generator passed in.
 import numpy as np
 from scipy.special import logsumexp
 
-SHAPES = ['gauss', 'multi', 'elongated', 'parabola', 'ring', 'corner', 'wrapped', 'face', 'blobs']
+SHAPES = ['gauss', 'multi', 'elongated', 'parabola', 'ring', 'corner', 'wrapped', 'face', 'blobs', 'core_halo']
 NN_KW = {'hidden_layer_sizes': (16, 8)}
 
 
@@ -37,6 +37,15 @@ def problem(rng, shape, d, n_bg=3000, n_shape=800, n_live=None):
         ss = s0 * rng.uniform(0.6, 1.4, (k, d))
         f = lambda x: logsumexp([-0.5 * np.sum(((x - cs[j]) / ss[j]) ** 2, axis=-1) for j in range(k)], axis=0)
         draw = np.vstack([cs[j] + ss[j] * rng.normal(size=(n_shape // k, d)) for j in range(k)])
+    elif shape == 'core_halo':   # a tight dense core plus a broad, sparse halo: the halo ellipsoid is what trim() drops
+        c = rng.uniform(0.4, 0.6, d)
+        c2 = c + rng.uniform(-0.1, 0.1, d)
+        s1, s2 = rng.uniform(0.008, 0.02), rng.uniform(0.15, 0.25)
+        lw = np.log(rng.uniform(0.02, 0.15))
+        f = lambda x: np.logaddexp(-0.5 * np.sum(((x - c) / s1) ** 2, axis=-1),
+                                   -0.5 * np.sum(((x - c2) / s2) ** 2, axis=-1) + lw - d * np.log(s2 / s1))
+        k1 = int(0.85 * n_shape)
+        draw = np.vstack([c + s1 * rng.normal(size=(k1, d)), c2 + s2 * rng.normal(size=(n_shape - k1, d))])
     elif shape == 'elongated':
         c = rng.uniform(0.4, 0.6, d)
         q, _ = np.linalg.qr(rng.normal(size=(d, d)))
@@ -76,7 +85,7 @@ def problem(rng, shape, d, n_bg=3000, n_shape=800, n_live=None):
         draw = c + s * rng.normal(size=(4 * n_shape, d))
     else:  # wrapped around the periodic boundary
         n_per = int(rng.integers(1, d + 1))
-        periodic = np.sort(rng.choice(d, n_per, replace=False))
+        periodic = rng.choice(d, n_per, replace=False)     # any order
         c = rng.uniform(0.3, 0.7, d)
         c[periodic] = rng.choice([0.0, 0.01, 0.99, 0.5, 0.25], n_per)
         s = rng.uniform(0.03, 0.1, d)
